@@ -7,6 +7,7 @@ A term is a nested tuple:
   ('ite_gt', a, b, then, else)        if a > b then .. else ..
   ('by_status', {member: value}, default)
   ('carry', form, name)               amount carried from another form: equals it, or blank when not demanded
+  ('addrows', n)                      sum of the listing rows '<n>_amount_<k>' of the same form
   ('ceilmult', Fraction m, t)         t if it is a multiple of m, else the next multiple of m
 Only instructions matched completely by the strict grammar below are used; everything else is "uncovered".
 """
@@ -46,7 +47,11 @@ def sentences(text):
 
 
 def expand_through(a, b, order):
-    """lines a through b in the template's own order of labelled widgets."""
+    """lines a through b in the template's own order of labelled widgets; '1a through 1h' (same number, single letters) is
+    the letter range when the template order does not hold both ends."""
+    ma, mb = re.fullmatch(r'(\d{1,2})([a-z])', a), re.fullmatch(r'(\d{1,2})([a-z])', b)
+    if (order is None or a not in order or b not in order) and ma and mb and ma.group(1) == mb.group(1) and ma.group(2) <= mb.group(2):
+        return [ma.group(1) + chr(c) for c in range(ord(ma.group(2)), ord(mb.group(2)) + 1)]
     if order is None or a not in order or b not in order:
         return None
     i, j = order.index(a), order.index(b)
@@ -87,10 +92,14 @@ def parse(text, order=None, own_line=None):
     start = None
     for ix, s in enumerate(sents):
         s2 = re.sub(r'^(?:Line\s+)?\d{1,2}\s?[a-z]?\.\s*', '', s)
-        if re.match(r'^(Add lines|Subtract line|Multiply line|Enter the (smaller|larger) of|Combine lines|Divide line|Enter (the )?amount from|Amount from)', s2, re.I):
+        if re.match(r'^(Add the amounts on line|Add lines|Subtract line|Multiply line|Enter the (smaller|larger) of|Combine lines|Divide line|Enter (the )?amount from|Amount from)', s2, re.I):
             start = ix
             sents[ix] = s2
             break
+        mm = re.match(r'^If line ' + LN + r' is more than line ' + LN + r', subtract line ' + LN + r' from line ' + LN + r'\.?$', s2.rstrip('.') , re.I)
+        if mm and norm_line(mm.group(1)) == norm_line(mm.group(4)) and norm_line(mm.group(2)) == norm_line(mm.group(3)):
+            a, b = ('line', None, norm_line(mm.group(1))), ('line', None, norm_line(mm.group(2)))
+            return ('ite_gt', a, b, ('sub', a, b), ('const', Fraction(0))), s2[:200]
         if re.match(r'^If\b', s2):
             return None     # conditional instruction: not covered
     if start is None:
@@ -104,6 +113,9 @@ def parse(text, order=None, own_line=None):
         if ls is None or len(ls) < 2:
             return None
         term = ('add', [('line', None, l) for l in ls])
+    m = re.fullmatch(r'Add the amounts on line (\d{1,2})', s, re.I)
+    if m and term is None:
+        term = ('addrows', m.group(1))      # the listing rows '<n>_amount_<k>' of that line
     m = re.fullmatch(r'Combine lines (.+)', s, re.I)
     if m and term is None:
         ls = parse_line_list(m.group(1), order)
@@ -189,7 +201,7 @@ def parse_status_table(text):
     t = re.sub(r'\s+', ' ', text.strip()).replace('\u2014', '-').replace('\u2013', '-')
     m = re.search(r'Enter the amount shown below for your filing status\.\s*(.+)$', t, re.I)
     if not m:
-        return None
+        return parse_status_list(t)
     table, default = {}, None
     for part in [x.strip() for x in re.split(r'\.\s+|\.$', m.group(1)) if x.strip()]:
         mm = re.fullmatch(r'(.+?)\s*-\s*\$' + NUM[3:], part)
@@ -209,6 +221,36 @@ def parse_status_table(text):
     if default is None or not table:
         return None
     return ('by_status', table, default), m.group(0)[:200]
+
+
+def parse_status_list(t):
+    """'5. Enter the following amount for your filing status: Married filing jointly, $250,000. Married filing separately,
+    $125,000. Single, Head of household, or Qualifying surviving spouse, $200,000.' - every status must be named."""
+    m = re.search(r'Enter the following amount for your filing status:\s*(.+)$', t, re.I)
+    if not m:
+        return None
+    table = {}
+    for part in [x.strip() for x in re.split(r'\.\s+|\.$', m.group(1)) if x.strip()]:
+        mm = re.fullmatch(r'(.+?),\s*\$' + NUM[3:], part)
+        if not mm:
+            return None
+        amount = money(mm.group(2))
+        for who in [w.strip().lower() for w in re.split(r',\s*(?:or\s+)?|\s+or\s+', mm.group(1)) if w.strip()]:
+            for rx, members in STATUS_WORDS:
+                if re.fullmatch(rx, who):
+                    for mem in members:
+                        table[mem] = amount
+                    break
+            else:
+                return None
+    need = {'Single', 'MarriedFilingJointly', 'MarriedFilingSeparately', 'HeadOfHousehold'}
+    if not need <= set(table) or not ({'QualifyingWidowWidower', 'QualifyingSurvivingSpouse'} & set(table)):
+        return None
+    # both spellings of the surviving-spouse status get the amount that was stated for either
+    q = table.get('QualifyingSurvivingSpouse', table.get('QualifyingWidowWidower'))
+    table.setdefault('QualifyingSurvivingSpouse', q)
+    table.setdefault('QualifyingWidowWidower', q)
+    return ('by_status', table, table['Single']), m.group(0)[:200]
 
 
 def parse_carry(text):
